@@ -5,12 +5,20 @@
 (* connections; copyLoop returns when both are done.                       *)
 (* One action per Read / Write of io.Copy's loop and per deferred Close.   *)
 (* The environment produces data on either side, ends a side (EOF or read  *)
-(* error) or makes writes to a side fail.  Data is counted in units.       *)
+(* error), makes writes to a side fail, or stops draining a side (writes   *)
+(* to it block: back-pressure) and drains it again.  Data is counted in    *)
+(* units.                                                                  *)
+(*   ClosesSource = FALSE is a named deviation: a copier that ends closes  *)
+(*   only its destination.  The plain cases still tear down transitively   *)
+(*   (the other copier's Read fails and it closes the rest), but a copier  *)
+(*   blocked in Write to the side that ended is never released.            *)
 (***************************************************************************)
 EXTENDS Integers, Sequences, FiniteSets, TLC, Json
 
 CONSTANTS MaxUnits,        \* units the environment may produce per side
-          MaxEnv           \* bound on environment actions (history length)
+          MaxEnv,          \* bound on environment actions (history length)
+          Stalls,          \* TRUE: the environment may stall / drain writes (back-pressure)
+          ClosesSource     \* TRUE: a copier that ends closes its source and its destination (the code)
 
 Sides == {"A", "B"}
 Other(s) == IF s = "A" THEN "B" ELSE "A"
@@ -18,36 +26,48 @@ Other(s) == IF s = "A" THEN "B" ELSE "A"
 VARIABLES prod,      \* s -> units produced on side s (readable by the copier s -> Other(s))
           ended,     \* s -> "no" | "eof" | "err": the environment ended side s's input
           wfail,     \* s -> writes to side s fail
+          wstall,    \* s -> writes to side s block (its peer does not drain) until it is drained or closed
           closed,    \* s -> connection s has been closed by the relay
           pc,        \* copier s->Other(s): "read" | "write" | "close1" | "close2" | "done"
           got,       \* s -> units read from s
           fwd,       \* s -> units written to Other(s)
           returned,  \* copyLoop has returned
           hist       \* environment actions so far (generation only; not in VIEW)
-vars == <<prod, ended, wfail, closed, pc, got, fwd, returned, hist>>
+vars == <<prod, ended, wfail, wstall, closed, pc, got, fwd, returned, hist>>
 
-Init == /\ prod = [s \in Sides |-> 0] /\ ended = [s \in Sides |-> "no"] /\ wfail = [s \in Sides |-> FALSE]
+Init == /\ prod = [s \in Sides |-> 0] /\ ended = [s \in Sides |-> "no"] /\ wfail = [s \in Sides |-> FALSE] /\ wstall = [s \in Sides |-> FALSE]
         /\ closed = [s \in Sides |-> FALSE] /\ pc = [s \in Sides |-> "read"]
         /\ got = [s \in Sides |-> 0] /\ fwd = [s \in Sides |-> 0] /\ returned = FALSE /\ hist = <<>>
 
 \* a copier blocked in Read with nothing to read
 Parked(s) == pc[s] = "read" /\ ~closed[s] /\ got[s] = prod[s] /\ ended[s] = "no"
-Quiet == \A s \in Sides : Parked(s) \/ pc[s] = "done"
+\* a copier blocked in Write by back-pressure
+BlockedInWrite(s) == pc[s] = "write" /\ wstall[Other(s)] /\ ~closed[Other(s)] /\ ~wfail[Other(s)]
+Quiet == \A s \in Sides : Parked(s) \/ BlockedInWrite(s) \/ pc[s] = "done"
 
 ---- \* environment
 EnvOK == Len(hist) < MaxEnv /\ ~returned
 Produce(s) == /\ EnvOK /\ ended[s] = "no" /\ prod[s] < MaxUnits
               /\ prod' = [prod EXCEPT ![s] = @ + 1]
               /\ hist' = Append(hist, [a |-> "produce", s |-> s, k |-> "", quiet |-> Quiet])
-              /\ UNCHANGED <<ended, wfail, closed, pc, got, fwd, returned>>
+              /\ UNCHANGED <<ended, wfail, wstall, closed, pc, got, fwd, returned>>
 End(s, k) == /\ EnvOK /\ ended[s] = "no"
              /\ ended' = [ended EXCEPT ![s] = k]
              /\ hist' = Append(hist, [a |-> "end", s |-> s, k |-> k, quiet |-> Quiet])
-             /\ UNCHANGED <<prod, wfail, closed, pc, got, fwd, returned>>
+             /\ UNCHANGED <<prod, wfail, wstall, closed, pc, got, fwd, returned>>
 WFail(s) == /\ EnvOK /\ ~wfail[s]
             /\ wfail' = [wfail EXCEPT ![s] = TRUE]
             /\ hist' = Append(hist, [a |-> "wfail", s |-> s, k |-> "", quiet |-> Quiet])
-            /\ UNCHANGED <<prod, ended, closed, pc, got, fwd, returned>>
+            /\ UNCHANGED <<prod, ended, wstall, closed, pc, got, fwd, returned>>
+WStall(s) == /\ Stalls /\ EnvOK /\ ~wstall[s] /\ ~closed[s]
+             /\ wstall' = [wstall EXCEPT ![s] = TRUE]
+             /\ hist' = Append(hist, [a |-> "wstall", s |-> s, k |-> "", quiet |-> Quiet])
+             /\ UNCHANGED <<prod, ended, wfail, closed, pc, got, fwd, returned>>
+\* the peer drains again (not bounded by MaxEnv: a stall that is never released proves nothing)
+Drain(s) == /\ wstall[s] /\ ~returned
+            /\ wstall' = [wstall EXCEPT ![s] = FALSE]
+            /\ hist' = IF Len(hist) < MaxEnv THEN Append(hist, [a |-> "drain", s |-> s, k |-> "", quiet |-> Quiet]) ELSE hist
+            /\ UNCHANGED <<prod, ended, wfail, closed, pc, got, fwd, returned>>
 
 ---- \* copier s -> Other(s): io.Copy(dst = Other(s), src = s)
 Read(s) == /\ pc[s] = "read"
@@ -55,24 +75,24 @@ Read(s) == /\ pc[s] = "read"
               ELSE IF got[s] < prod[s] THEN pc' = [pc EXCEPT ![s] = "write"] /\ got' = [got EXCEPT ![s] = @ + 1]
               ELSE IF ended[s] # "no" THEN pc' = [pc EXCEPT ![s] = "close1"] /\ got' = got
               ELSE FALSE                                                             \* blocked
-           /\ UNCHANGED <<prod, ended, wfail, closed, fwd, returned, hist>>
-Write(s) == /\ pc[s] = "write"
+           /\ UNCHANGED <<prod, ended, wfail, wstall, closed, fwd, returned, hist>>
+Write(s) == /\ pc[s] = "write" /\ ~BlockedInWrite(s)
             /\ IF closed[Other(s)] \/ wfail[Other(s)]
                THEN pc' = [pc EXCEPT ![s] = "close1"] /\ fwd' = fwd
                ELSE pc' = [pc EXCEPT ![s] = "read"] /\ fwd' = [fwd EXCEPT ![s] = @ + 1]
-            /\ UNCHANGED <<prod, ended, wfail, closed, got, returned, hist>>
+            /\ UNCHANGED <<prod, ended, wfail, wstall, closed, got, returned, hist>>
 \* deferred closes: the copier closes its source first, then its destination
-Close1(s) == /\ pc[s] = "close1" /\ closed' = [closed EXCEPT ![s] = TRUE] /\ pc' = [pc EXCEPT ![s] = "close2"]
-             /\ UNCHANGED <<prod, ended, wfail, got, fwd, returned, hist>>
+Close1(s) == /\ pc[s] = "close1" /\ closed' = [closed EXCEPT ![s] = (ClosesSource \/ @)] /\ pc' = [pc EXCEPT ![s] = "close2"]
+             /\ UNCHANGED <<prod, ended, wfail, wstall, got, fwd, returned, hist>>
 Close2(s) == /\ pc[s] = "close2" /\ closed' = [closed EXCEPT ![Other(s)] = TRUE] /\ pc' = [pc EXCEPT ![s] = "done"]
-             /\ UNCHANGED <<prod, ended, wfail, got, fwd, returned, hist>>
+             /\ UNCHANGED <<prod, ended, wfail, wstall, got, fwd, returned, hist>>
 Return == /\ ~returned /\ \A s \in Sides : pc[s] = "done"
-          /\ returned' = TRUE /\ UNCHANGED <<prod, ended, wfail, closed, pc, got, fwd, hist>>
+          /\ returned' = TRUE /\ UNCHANGED <<prod, ended, wfail, wstall, closed, pc, got, fwd, hist>>
 
 CopierStep == Return \/ \E s \in Sides : Read(s) \/ Write(s) \/ Close1(s) \/ Close2(s)
-EnvStep == \E s \in Sides : Produce(s) \/ WFail(s) \/ \E k \in {"eof", "err"} : End(s, k)
+EnvStep == \E s \in Sides : Produce(s) \/ WFail(s) \/ WStall(s) \/ Drain(s) \/ \E k \in {"eof", "err"} : End(s, k)
 Next == CopierStep \/ EnvStep
-Spec == Init /\ [][Next]_vars /\ WF_vars(CopierStep)
+Spec == Init /\ [][Next]_vars /\ WF_vars(CopierStep) /\ \A s \in Sides : WF_vars(Drain(s))
 
 ---- \* properties (C19)
 Healthy(s) == ended[s] = "no" /\ ~wfail[s]
@@ -89,9 +109,10 @@ ReturnedMeansClosed == returned => \A s \in Sides : closed[s]
 \* as soon as either side ends, both connections get closed and the relay returns
 EndLeadsToReturn == (\E s \in Sides : ended[s] # "no") ~> returned
 \* safety form of the same: never quiescent-but-open after an end
-NeverWedged == ~((\E s \in Sides : ended[s] # "no") /\ ~returned /\ ~ENABLED CopierStep)
+\* (a copier that is blocked by back-pressure while forwarding the ended side's data cannot have seen the end yet)
+NeverWedged == ~((\E s \in Sides : ended[s] # "no" /\ ~BlockedInWrite(s)) /\ ~returned /\ ~ENABLED CopierStep)
 
-View == <<prod, ended, wfail, closed, pc, got, fwd, returned, Len(hist)>>
+View == <<prod, ended, wfail, wstall, closed, pc, got, fwd, returned, Len(hist)>>
 \* generation: one scenario per distinct environment history, printed when the relay has returned
 EmitScript == returned => PrintT(<<"SCRIPT", Len(hist), ToJson(hist)>>)
 =============================================================================
